@@ -1,0 +1,72 @@
+//go:build verif
+
+/*
+ * Verification exports (C28: Txn.modify validation and size accounting). Add-only wrappers that
+ * expose unexported state / functions to the external verification harness.
+ * Compiled only with `-tags verif`.
+ */
+
+package badger
+
+import (
+	"github.com/dgraph-io/badger/v4/skl"
+)
+
+// VerifBatchLimits runs checkAndSetOptions on a copy of opt and returns the derived limits.
+func VerifBatchLimits(opt Options) (maxBatchCount, maxBatchSize int64, err error) {
+	err = checkAndSetOptions(&opt)
+	return opt.maxBatchCount, opt.maxBatchSize, err
+}
+
+// VerifMaxNodeSize returns skl.MaxNodeSize.
+func VerifMaxNodeSize() int64 { return int64(skl.MaxNodeSize) }
+
+// VerifDBLimits returns the limits and the current value threshold of an open DB.
+func VerifDBLimits(db *DB) (maxBatchCount, maxBatchSize, valueThreshold int64) {
+	return db.opt.maxBatchCount, db.opt.maxBatchSize, db.valueThreshold()
+}
+
+// VerifTxnState returns Txn.count, Txn.size and the sizes of pendingWrites / duplicateWrites.
+func VerifTxnState(txn *Txn) (count, size int64, pending, dups int) {
+	return txn.count, txn.size, len(txn.pendingWrites), len(txn.duplicateWrites)
+}
+
+// VerifNextTxnTs returns the timestamp the oracle would hand to the next commit (normal mode).
+func VerifNextTxnTs(db *DB) uint64 {
+	db.orc.Lock()
+	defer db.orc.Unlock()
+	return db.orc.nextTxnTs
+}
+
+// VerifBlockWrites sets / clears db.blockWrites.
+func VerifBlockWrites(db *DB, on bool) {
+	if on {
+		db.blockWrites.Store(1)
+	} else {
+		db.blockWrites.Store(0)
+	}
+}
+
+// VerifEntryWithVersion sets the unexported version field (as WriteBatch.SetEntryAt does).
+func VerifEntryWithVersion(e *Entry, version uint64) *Entry {
+	e.version = version
+	return e
+}
+
+// VerifIsBanned runs DB.isBanned on a DB value that has only the fields isBanned reads.
+func VerifIsBanned(namespaceOffset int, banned []uint64, key []byte) error {
+	db := &DB{bannedNamespaces: &lockedKeys{keys: make(map[uint64]struct{})}}
+	db.opt.NamespaceOffset = namespaceOffset
+	for _, b := range banned {
+		db.bannedNamespaces.add(b)
+	}
+	return db.isBanned(key)
+}
+
+// VerifEstimate runs Entry.estimateSizeAndSetThreshold and returns the estimate and the
+// threshold cached in the entry afterwards.
+func VerifEstimate(key, value []byte, cachedThreshold, threshold int64) (size, newThreshold int64) {
+	e := &Entry{Key: key, Value: value, valThreshold: cachedThreshold}
+	size = e.estimateSizeAndSetThreshold(threshold)
+	return size, e.valThreshold
+}
